@@ -19,20 +19,11 @@ theorem runFrom_append (st : State) (a b : List Op) :
     | ok s1 => exact ih s1
     | error e => rfl
 
-theorem patsFrom_append' (a b : List Str) (f : Bool) :
-    Spec.patsFrom (a ++ b) f = Spec.patsFrom a f ++ Spec.patsFrom b (Spec.flagFrom a f) := by
-  induction a generalizing f with
-  | nil => simp [Spec.patsFrom, Spec.flagFrom]
-  | cons x xs ih =>
-    cases f
-    · simp only [List.cons_append, Spec.patsFrom, Spec.flagFrom, Bool.false_eq_true, if_false, ih, List.append_assoc]
-    · simp [Spec.patsFrom, Spec.flagFrom, patsFrom_true]
-
 /-- `Add` when nothing can clash -/
 theorem step_add_of {st : State} {s : Svc} (hnew : s.root ∉ roots st.services)
-    (hn : (keys st.mux ++ (if st.onRoot then [] else Spec.regPatterns s.root)).Nodup) :
+    (hn : (keys st.mux ++ (if st.onRoot then [] else Spec.newPatterns (mapped st.services) s.root)).Nodup) :
     step st (.add s) = .ok { st with
-      mux := st.mux ++ (if st.onRoot then [] else Spec.regPatterns s.root).map dispE,
+      mux := st.mux ++ (if st.onRoot then [] else Spec.newPatterns (mapped st.services) s.root).map dispE,
       onRoot := if st.onRoot then true else Spec.isRootPattern s.root,
       services := st.services ++ [s] } := by
   have hd : (st.services.any fun each => each.root == s.root) = false := by
@@ -47,26 +38,26 @@ theorem step_add_of {st : State} {s : Svc} (hnew : s.root ∉ roots st.services)
   | true => simp
   | false =>
     simp only [ho, Bool.false_eq_true, if_false] at hn ⊢
-    rw [addHandler_eq st.mux (alreadyMapped_of_new hd), regList_of hn (regPatterns_ne_nil)]
+    rw [addHandler_eq st.services s st.mux, regList_of hn (newPatterns_ne_nil)]
 
 theorem roots_append' (a b : List Svc) : roots (a ++ b) = roots a ++ roots b := by simp [roots]
 
-/-- the services of a new container, one `Add` after the other -/
+/-- the services of a new container, one `Add` after the other: whatever their root paths are, as
+    long as they are pairwise different -/
 theorem runFrom_adds (svcs : List Svc) (s0 : State)
-    (hmux : s0.mux = (Spec.patsFrom (roots s0.services) false).map dispE)
+    (hmux : s0.mux = (Spec.regFrom (roots s0.services) [] false).map dispE)
     (hflag : s0.onRoot = Spec.flagFrom (roots s0.services) false)
-    (hroots : (roots (s0.services ++ svcs)).Nodup)
-    (hpats : (Spec.patsFrom (roots (s0.services ++ svcs)) false).Nodup) :
+    (hroots : (roots (s0.services ++ svcs)).Nodup) :
     runFrom s0 (svcs.map .add) = .ok { s0 with
       services := s0.services ++ svcs,
-      mux := (Spec.patsFrom (roots (s0.services ++ svcs)) false).map dispE,
+      mux := (Spec.regFrom (roots (s0.services ++ svcs)) [] false).map dispE,
       onRoot := Spec.flagFrom (roots (s0.services ++ svcs)) false } := by
   induction svcs generalizing s0 with
   | nil =>
     simp only [List.map_nil, runFrom, List.append_nil, ← hmux, ← hflag]
   | cons s rest ih =>
     have hassoc : s0.services ++ s :: rest = (s0.services ++ [s]) ++ rest := by simp
-    rw [hassoc] at hroots hpats
+    rw [hassoc] at hroots
     have hroots1 : (roots (s0.services ++ [s])).Nodup := by
       rw [roots_append'] at hroots
       exact (List.nodup_append.mp hroots).1
@@ -74,23 +65,21 @@ theorem runFrom_adds (svcs : List Svc) (s0 : State)
       rw [roots_append] at hroots1
       intro hm
       exact (List.nodup_append.mp hroots1).2.2 _ hm _ (List.mem_singleton.mpr rfl) rfl
-    have hpats1 : (Spec.patsFrom (roots (s0.services ++ [s])) false).Nodup := by
-      rw [roots_append', patsFrom_append'] at hpats
-      exact (List.nodup_append.mp hpats).1
+    have hpats1 : (Spec.regFrom (roots (s0.services ++ [s])) [] false).Nodup := regFrom_nodup' _
     have hstep := step_add_of (st := s0) (s := s) hnew (by
       rw [hmux, keys_dispE, hflag]
-      rw [roots_append, patsFrom_append] at hpats1
+      rw [roots_append, regFrom_append, List.nil_append, ← mapped_eq] at hpats1
       cases hf : Spec.flagFrom (roots s0.services) false <;> simpa [hf] using hpats1)
     simp only [List.map_cons, runFrom, hstep]
     have := ih { s0 with
-        mux := s0.mux ++ (if s0.onRoot then [] else Spec.regPatterns s.root).map dispE,
+        mux := s0.mux ++ (if s0.onRoot then [] else Spec.newPatterns (mapped s0.services) s.root).map dispE,
         onRoot := if s0.onRoot then true else Spec.isRootPattern s.root,
         services := s0.services ++ [s] }
       (by
-        simp only [roots_append, patsFrom_append, hmux, hflag, List.map_append])
+        simp only [roots_append, regFrom_append, hmux, hflag, List.map_append, List.nil_append, ← mapped_eq])
       (by
         simp only [roots_append, flagFrom_append, hflag])
-      hroots hpats
+      hroots
     rw [this, hassoc]
 
 /-- the plain handlers of a new container, one `Handle` after the other -/
@@ -119,20 +108,20 @@ theorem runFrom_handles (hs : List (Str × Nat)) (s1 : State)
 /-- the state of the fresh container, when every plain handler is still registered -/
 def freshState (st : State) : State :=
   { router := st.router, services := st.services,
-    mux := (Spec.patsFrom (roots st.services) false).map dispE ++ st.handlers.map plainE,
+    mux := (Spec.regFrom (roots st.services) [] false).map dispE ++ st.handlers.map plainE,
     onRoot := Spec.flagFrom (roots st.services) false,
     live := st.handlers, handlers := st.handlers }
 
 theorem fresh_ok {st : State} (inv : Inv st) (hl : st.live = st.handlers) :
     fresh (content st) = .ok (freshState st) := by
-  have hk : (keys ((Spec.patsFrom (roots st.services) false).map dispE ++ st.live.map plainE)).Nodup :=
+  have hk : (keys ((Spec.regFrom (roots st.services) [] false).map dispE ++ st.live.map plainE)).Nodup :=
     (keys_nodup_iff _).mp (inv.keys.perm inv.perm)
   rw [keys_append, keys_dispE, keys_plainE, hl] at hk
   unfold fresh run Content.ops content
   simp only
   rw [runFrom_append]
-  rw [runFrom_adds st.services (init st.router) (by simp [init, roots, Spec.patsFrom]) (by simp [init, roots, Spec.flagFrom])
-    (by simpa [init] using inv.rootsNodup) (by simpa [init] using (List.nodup_append.mp hk).1)]
+  rw [runFrom_adds st.services (init st.router) (by simp [init, roots, Spec.regFrom]) (by simp [init, roots, Spec.flagFrom])
+    (by simpa [init] using inv.rootsNodup)]
   simp only
   rw [runFrom_handles st.handlers _ (by simpa [init, keys_dispE] using hk) (by rw [← hl]; exact inv.liveNe)]
   simp [freshState, init]
@@ -140,14 +129,11 @@ theorem fresh_ok {st : State} (inv : Inv st) (hl : st.live = st.handlers) :
 /-- services only: the fresh container always builds and has the same services -/
 theorem fresh_services_ok {st : State} (inv : Inv st) :
     fresh ⟨st.router, st.services, []⟩ = .ok { freshState st with
-      mux := (Spec.patsFrom (roots st.services) false).map dispE, live := [], handlers := [] } := by
-  have hk : (keys ((Spec.patsFrom (roots st.services) false).map dispE ++ st.live.map plainE)).Nodup :=
-    (keys_nodup_iff _).mp (inv.keys.perm inv.perm)
-  rw [keys_append, keys_dispE] at hk
+      mux := (Spec.regFrom (roots st.services) [] false).map dispE, live := [], handlers := [] } := by
   unfold fresh run Content.ops
   simp only [List.map_nil, List.append_nil]
-  rw [runFrom_adds st.services (init st.router) (by simp [init, roots, Spec.patsFrom]) (by simp [init, roots, Spec.flagFrom])
-    (by simpa [init] using inv.rootsNodup) (by simpa [init] using (List.nodup_append.mp hk).1)]
+  rw [runFrom_adds st.services (init st.router) (by simp [init, roots, Spec.regFrom]) (by simp [init, roots, Spec.flagFrom])
+    (by simpa [init] using inv.rootsNodup)]
   simp [freshState, init]
 
 /-! ### nothing is lost without a `Handle` before a `Remove` -/
